@@ -34,6 +34,10 @@
               abort/suspend/commit, not rebuilt at resume); a fresh object has [].
      newrevs  revisions._index.key_dependencies new keys (cleared by
               clear_key_dependencies, refilled by scan_unvalidated_index at resume)
+     resident names this object registered in _packs_by_name when it resumed them;
+              _suspend_write_group and _abort_write_group do not unregister them, so
+              resuming such a name again on the same object hits the AssertionError of
+              add_pack_to_memory (a successful commit re-registers them as normal packs)
      broken   _commit_write_group failed after its refusal checks (inside
               Pack.finish): the write group is half torn down; the model makes no
               claim about later operations of that object. *)
@@ -74,14 +78,15 @@ Record state := St {
   wg : option wgstate;
   mcp : list N;
   newrevs : list N;
+  resident : list name;
   broken : bool }.
 
-Definition visible (s : state) : list N := concat (listed s).
-Definition wg_items (w : wgstate) : list N := concat (wres w) ++ wnew w.
+Definition visible (s : state) : list N := List.concat (listed s).
+Definition wg_items (w : wgstate) : list N := List.concat (wres w) ++ wnew w.
 Definition view (s : state) : list N :=
   visible s ++ match wg s with Some w => wg_items w | None => [] end.
 
-Inductive err := EBzrError | ECheck | ECheckFinish | EUnresumable | ENotInWriteGroup.
+Inductive err := EBzrError | ECheck | ECheckFinish | EUnresumable | ENotInWriteGroup | EAssertion.
 Inductive res := ROk | RToks (l : list name) | RErr (e : err) | RBroken.
 
 Inductive tok := TName (n : name) | TBad.
@@ -127,17 +132,17 @@ Section Machine.
     forallb (fun k => match comp_of C k with Some c => mem c v | None => true end) p.
 
   (* ---- _resume_write_group: tokens in order; first unusable one aborts ---- *)
-  Fixpoint resume_toks (up : list name) (acc : list name) (ts : list tok) : option (list name) :=
+  Inductive rs := RsOk (r : list name) | RsUnresumable (r : list name) | RsAssert.
+  (* _resume_pack per token: malformed / NoSuchFile -> UnresumableWriteGroup (the packs resumed so
+     far, [acc], are aborted = deleted from upload/); already registered -> AssertionError *)
+  Fixpoint resume_toks (up resid : list name) (acc : list name) (ts : list tok) : rs :=
     match ts with
-    | [] => Some acc
-    | TName n :: ts' => if nmem n up then resume_toks up (acc ++ [n]) ts' else None
-    | TBad :: _ => None
-    end.
-  (* packs resumed before the failing token (they are aborted = deleted from upload/) *)
-  Fixpoint resumed_before_fail (up : list name) (ts : list tok) : list name :=
-    match ts with
-    | TName n :: ts' => if nmem n up then n :: resumed_before_fail up ts' else []
-    | _ => []
+    | [] => RsOk acc
+    | TName n :: ts' =>
+        if negb (nmem n up) then RsUnresumable acc
+        else if nmem n resid || nmem n acc then RsAssert
+        else resume_toks up resid (acc ++ [n]) ts'
+    | TBad :: _ => RsUnresumable acc
     end.
 
   Definition step (o : op) (s : state) : state * res :=
@@ -146,7 +151,7 @@ Section Machine.
     | Start =>   (* Repository.start_write_group + _start_write_group *)
         match wg s with
         | Some _ => (s, RErr EBzrError)                 (* already in a write group *)
-        | None => (St (listed s) (upload s) (Some (WG [] [])) (mcp s) (newrevs s) false, ROk)
+        | None => (St (listed s) (upload s) (Some (WG [] [])) (mcp s) (newrevs s) (resident s) false, ROk)
         end
     | Ins k =>   (* insert_record_stream / add_* of one record into the new pack *)
         match wg s with
@@ -154,12 +159,12 @@ Section Machine.
         | Some w =>
             (St (listed s) (upload s) (Some (WG (wnew w ++ [k]) (wres w)))
                 (mcp_after_insert s k)
-                (if kind_eqb (kind_of C k) KRev then newrevs s ++ [k] else newrevs s) false, ROk)
+                (if kind_eqb (kind_of C k) KRev then newrevs s ++ [k] else newrevs s) (resident s) false, ROk)
         end
     | Abort =>   (* Repository.abort_write_group; PackRepository._abort_write_group *)
         match wg s with
         | None => (s, RErr EBzrError)                   (* mismatched lock context and write group *)
-        | Some w => (St (listed s) (nremove_all (wres w) (upload s)) None (mcp s) [] false, ROk)
+        | Some w => (St (listed s) (nremove_all (wres w) (upload s)) None (mcp s) [] (resident s) false, ROk)
         end
     | Suspend => (* PackRepository.suspend_write_group; _suspend_write_group *)
         match wg s with
@@ -168,17 +173,20 @@ Section Machine.
             let toks := wres w ++ (if wnew w then [] else [wnew w]) in
             let up := if wnew w then upload s
                       else if nmem (wnew w) (upload s) then upload s else upload s ++ [wnew w] in
-            (St (listed s) up None (mcp s) [] false, RToks toks)
+            (St (listed s) up None (mcp s) [] (resident s) false, RToks toks)
         end
     | Resume ts => (* Repository.resume_write_group; PackRepository._resume_write_group *)
         match wg s with
         | Some _ => (s, RErr EBzrError)
         | None =>
-            match resume_toks (upload s) [] ts with
-            | Some r => (St (listed s) (upload s) (Some (WG [] r)) (mcp s)
-                            (revs_of (concat r)) false, ROk)
-            | None => (St (listed s) (nremove_all (resumed_before_fail (upload s) ts) (upload s))
-                          None (mcp s) [] false, RErr EUnresumable)
+            match resume_toks (upload s) (resident s) [] ts with
+            | RsOk r => (St (listed s) (upload s) (Some (WG [] r)) (mcp s)
+                            (revs_of (List.concat r)) (resident s ++ r) false, ROk)
+            | RsUnresumable r =>
+                (St (listed s) (nremove_all r (upload s)) None (mcp s) [] (resident s ++ r) false,
+                 RErr EUnresumable)
+            | RsAssert => (St (listed s) (upload s) (wg s) (mcp s) (newrevs s) (resident s) true,
+                           RErr EAssertion)
             end
         end
     | Commit =>  (* Repository.commit_write_group; _commit_write_group *)
@@ -188,14 +196,15 @@ Section Machine.
             if negb (match mcp s with [] => true | _ => false end) then (s, RErr ECheck)
             else if is_gc && negb (check_new_inventories s) then (s, RErr ECheck)
             else if negb (refs_ok (view s) (wnew w) && forallb (refs_ok (view s)) (wres w))
-            then (St (listed s) (upload s) (wg s) (mcp s) (newrevs s) true, RErr ECheckFinish)
+            then (St (listed s) (upload s) (wg s) (mcp s) (newrevs s) (resident s) true, RErr ECheckFinish)
             else (St (listed s ++ (if wnew w then [] else [wnew w]) ++ wres w)
-                     (nremove_all (wres w) (upload s)) None (mcp s) [] false, ROk)
+                     (nremove_all (wres w) (upload s)) None (mcp s) []
+                     (nremove_all (wres w) (resident s)) false, ROk)
         end
     | Reopen =>  (* a fresh Repository object on the same directory *)
         match wg s with
         | Some _ => (s, RErr EBzrError)
-        | None => (St (listed s) (upload s) None [] [] false, ROk)
+        | None => (St (listed s) (upload s) None [] [] [] false, ROk)
         end
     end.
 
@@ -215,7 +224,8 @@ Section Machine.
   Definition oerr (e : err) : obs :=
     OE (match e with
         | EBzrError => "BzrError" | ECheck => "BzrCheckError" | ECheckFinish => "BzrCheckError:finish"
-        | EUnresumable => "UnresumableWriteGroup" | ENotInWriteGroup => "NotInWriteGroup" end)%string.
+        | EUnresumable => "UnresumableWriteGroup" | ENotInWriteGroup => "NotInWriteGroup"
+        | EAssertion => "AssertionError" end)%string.
   Definition ores (r : res) : obs :=
     match r with
     | ROk => OT "ok" | RToks l => OL (map (olist oN) l) | RErr e => oerr e | RBroken => OT "broken"
@@ -227,7 +237,7 @@ Section Machine.
   Definition observe (before after : state) (r : res) : obs :=
     match r with
     | RBroken => OT "broken"
-    | RErr ECheckFinish =>
+    | RErr ECheckFinish | RErr EAssertion =>
         OL [ores r; olist oN (sortN (visible after));
             obool (negb (list_eqb name_eqb (listed before) (listed after)))]
     | _ =>
@@ -245,7 +255,7 @@ Section Machine.
     end.
 End Machine.
 
-Definition init : state := St [] [] None [] [] false.
+Definition init : state := St [] [] None [] [] [] false.
 
 (* ---------- the two concrete catalogs used by the correspondence run ----------
    (the harness builds its source repositories from the same table and checks at
